@@ -65,6 +65,20 @@ def _clouds(unit):
         yield ("cube", d), np.array(list(itertools.product((0.0, 1.0), repeat=d)))
         yield ("few", d), np.array([[1.0] + [0.0] * (d - 1), [0.0, 2.0] + [0.0] * (d - 2), [0.5] * d])
         yield ("cross", d), np.vstack([np.eye(d) * 2 + 1, np.ones(d), 1 + np.ones(d) * 0.25])
+        # a cloud with a repeated row that is not the last one (lattice data drawn with replacement)
+        if d <= 4:
+            cube = np.array(list(itertools.product((0.0, 1.0), repeat=d)))
+            yield ("cube-repeated-corner", d), np.vstack([cube[:3], cube[1:2], cube[3:], cube[5:6]])
+        else:
+            sx = np.vstack([np.zeros(d), 2 * np.eye(d), np.full(d, 0.75)])
+            yield ("simplex-repeated-rows", d), np.vstack([sx[:2], sx[1:2], sx[2:], sx[4:5]])
+        # no more points than dimensions: exactly four points split two below / two above the plane (the slice is a quadrilateral)
+        quad = np.zeros((4, d))
+        quad[0, :2] = [0.5, 0.25]
+        quad[1, 1:3] = [0.25, 0.75]
+        quad[2, :] = 0.75
+        quad[3, :] = np.arange(1, d + 1) * 0.5
+        yield ("four-points-2-2", d), quad
         rng = np.random.default_rng(31 + unit["seed"])
         yield ("seeded", d), np.round(rng.uniform(0, 3, (d + 4, d)) * 8) / 8
         # flat AND elongated sheets (rank 2 in d dimensions, aspect ratios 50 .. 30000), non-negative coordinates
